@@ -5,13 +5,14 @@ from __future__ import annotations
 import ast
 import itertools
 
-from ..astutil import inside
+from ..astutil import cond_terms, inside, norm_cmp
 from ..cfg import CFG, cond_strings
 from ..core import AnalysisError, walk_own
 from ..defuse import DefUse, Terms, show, walk_term
 from ..events import container_events, root_name
 from ..paths import path_variants
-from ..tutil import TTUnknown, callee_of, select_ifexp, simp, tt_eval
+from ..tutil import (TTUnknown, callee_of, no_uids, select_ifexp, simp,
+                     tt_eval)
 from ..defuse import key as tkey
 
 EXPLANATION = (
@@ -261,14 +262,29 @@ def _get_next_row(ctx, f):
     ok_adv = False
     why = f"stores into {p_heads}: {[ast.unparse(e.stmt)[:80] for e in stores]}"
     nxt = None
+    SENT = None       # next(it, SENT): exhaustion reported by a sentinel
     if len(stores) == 1 and is_key(stores[0].key):
         v = stores[0].value
         c = callee_of(v)
-        if c and c[0] == "builtins.next" and len(c[1]) == 1 and \
+        if c and c[0] == "builtins.next" and len(c[1]) in (1, 2) and \
                 c[1][0][0] == "sub" and root_name(c[1][0][1]) == ITERS_N \
                 and is_key(c[1][0][2]):
-            ok_adv = True
-            nxt = v
+            if len(c[1]) == 1:
+                ok_adv = True
+                nxt = v
+            elif _is_sentinel(prog, c[1][1]):
+                # the new head is stored only when it is not the sentinel
+                SENT = c[1][1]
+                cs = cond_terms(cfg, T, stores[0].stmt)
+                ok_adv = any(
+                    t[0] == "cmp" and {t[2], t[3]} == {v, SENT}
+                    and ((t[1] == "is not" and o) or (t[1] == "is"
+                                                      and not o))
+                    for t, o in cs)
+                nxt = v
+                if not ok_adv:
+                    why = ("the value of next(it, sentinel) is stored "
+                           "without testing it against the sentinel")
     ctx.check(ok_adv, "C14a-advance-selected-only", f,
               "only the selected iterator advances, into the selected slot",
               why + f"; expected {p_heads}[key] = next({p_iters}[key]) with "
@@ -288,6 +304,12 @@ def _get_next_row(ctx, f):
         ok_try = tr is not None and any(
             h.type is not None and "StopIteration" in ast.unparse(h.type)
             for h in tr.handlers)
+        if SENT is not None and nxt is not None:
+            # sentinel idiom: retire exactly when next() returned it
+            ok_try = all(any(
+                t[0] == "cmp" and {t[2], t[3]} == {nxt, SENT}
+                and ((t[1] == "is" and o) or (t[1] == "is not" and not o))
+                for t, o in cond_terms(cfg, T, e.stmt)) for e in dels)
         dn = {cfg.node_of(e.stmt).id for e in dels}
         nn = cfg.node_of(next_stmts[0]).id
         excl = True
@@ -299,7 +321,8 @@ def _get_next_row(ctx, f):
         same = len({tuple(cfg.conditions(e.stmt)) for e in dels}) == 1
         ok_del = ok_try and excl and same
         if not ok_try:
-            why = "next() is not guarded by 'except StopIteration'"
+            why = ("next() is not guarded by 'except StopIteration' (nor is "
+                   "its sentinel tested before the input is retired)")
         elif not excl:
             why = "a pass can both refill and retire the selected input"
         elif not same:
@@ -326,6 +349,20 @@ def _get_next_row(ctx, f):
                   node=rets[0])
 
 
+def _is_sentinel(prog, t):
+    """A value no row can be: None, or a module-level name bound once to a
+    fresh object()."""
+    if t == ("const", None):
+        return True
+    if t[0] == "name" and isinstance(t[1], str) and "." in t[1]:
+        mod, _, nm = t[1].rpartition(".")
+        m = prog.modules.get(mod)
+        v = m.assigns.get(nm) if m is not None else None
+        return isinstance(v, ast.Call) and isinstance(
+            v.func, ast.Name) and v.func.id == "object" and not v.args
+    return False
+
+
 def v_row_term(T, loop):
     return "?"
 
@@ -344,52 +381,105 @@ def _merge_sort(ctx, f):
              and n.func.id == "get_next_row"]
     ctx.require(len(calls) == 1, f"{f.qual}: get_next_row call not found")
     c = calls[0]
-    it_name, head_name = (ast.unparse(a) for a in c.args[:2])
-    # loop until no iterator is left
-    t = w.test
-    ok_loop = ast.unparse(t) in (f"{it_name} != {{}}", f"{it_name}",
-                                 f"len({it_name}) > 0", f"len({it_name})",
-                                 f"{head_name} != {{}}", f"{head_name}",
-                                 f"len({head_name}) > 0")
+    cfg = CFG(f.node)
+    from ..tutil import bound_args, one_to_one
+    ct = T.of(c)
+    b = bound_args(prog, ct) or {}
+    gp = prog.func("mokapot.utils.get_next_row").params
+    it_def, hd_def, col = (b.get(gp[0]), b.get(gp[1]), b.get(gp[2]))
+    ctx.require(it_def is not None and hd_def is not None,
+                f"{f.qual}: arguments of get_next_row not bound")
+    # loop until no iterator (equivalently: no head) is left
+    Tn = Terms(du)
+
+    def nonempty_of(test):
+        """the container the loop test says is non-empty, else None"""
+        tt = Tn.of(test)
+        if tt[0] == "cmp" and tt[1] == "!=" and ("dict", (), ()) in (
+                tt[2], tt[3]):
+            return tt[3] if tt[2] == ("dict", (), ()) else tt[2]
+        n = norm_cmp(tt, True)
+        if n is not None:
+            ln = [x for x in n[1:] if x[0] == "call"
+                  and x[1] == "builtins.len" and len(x[2]) == 1]
+            other = [x for x in n[1:] if x not in ln]
+            if len(ln) == 1 and other in ([("const", 0)], [("const", 1)]):
+                z = other[0][1]
+                if (n[0] == "lt" and n[1] == ("const", 0) and z == 0) or (
+                        n[0] == "le" and n[1] == ("const", 1)) or (
+                        n[0] == "ne" and z == 0):
+                    return ln[0][2][0]
+            return None
+        if tt[0] == "call" and tt[1] == "builtins.len" and len(tt[2]) == 1:
+            return tt[2][0]
+        if tt[0] in ("var", "phi", "comp", "call", "param", "rec",
+                     "mutsub", "mut", "store"):
+            return tt
+        return None
+
+    ne = nonempty_of(w.test)
+    ok_loop = ne is not None and no_uids(ne) in (
+        no_uids(Tn.of(c.args[0])) if c.args else None,
+        no_uids(Tn.of(c.args[1])) if len(c.args) > 1 else None)
     ctx.check(ok_loop, "C14a-loop-until-exhausted", f,
               "merge loops until no input iterator is left",
-              f"loop condition is '{ast.unparse(t)}'", node=w)
-    ctx.check(ast.unparse(c.args[2]) == p_col, "C14a-merge-score-column", f,
+              f"loop condition is '{ast.unparse(w.test)}'", node=w)
+    ctx.check(col == ("param", p_col), "C14a-merge-score-column", f,
               "merge compares on the caller's score column",
-              f"get_next_row is called with {ast.unparse(c.args[2])}",
+              f"get_next_row is called with {show(col, 60) if col else None}",
               node=c)
     # iterators: one per path; heads: one next() per iterator
-    it_def = T.of(c.args[0])
-    hd_def = T.of(c.args[1])
-    ok_it = it_def[0] == "comp" and it_def[1] == "dict" and \
-        show(it_def[3][0][1]) == f"enumerate({p_paths})"
+    it0 = _before_loop(it_def)
+    hd0 = _before_loop(hd_def)
+    ok_it = one_to_one(it0) == ("param", p_paths)
     ctx.check(ok_it, "C14a-one-iterator-per-input", f,
               "one row iterator per input path",
-              f"iterators are {show(it_def, 120)}", node=c)
-    ok_hd = hd_def[0] == "comp" and hd_def[1] == "dict" and \
-        tkey(hd_def[3][0][1]).endswith(".items()") and \
-        "next(" in tkey(hd_def[2]) and not hd_def[3][0][2]
+              f"iterators are {show(it0, 120)}", node=c)
+    base_h = one_to_one(hd0)
+    nexts = [x for x in walk_term(hd0) if isinstance(x, tuple) and x
+             and x[0] == "call" and x[1] == "builtins.next"
+             and len(x[2]) == 1]
+    ok_hd = base_h is not None and no_uids(base_h) in (
+        no_uids(it0), ("param", p_paths)) and len(nexts) >= 1
     ctx.check(ok_hd, "C14a-one-head-per-iterator", f,
               "every iterator contributes its first row as head",
-              f"heads are {show(hd_def, 120)}", node=c)
+              f"heads are {show(hd0, 120)}", node=c)
     # every non-None row is yielded
-    ys = [n for n in ast.walk(w) if isinstance(n, ast.Yield)]
+    ys = [n for n in walk_own(w) if isinstance(n, ast.Yield)]
     ok_y = False
-    cfg = CFG(f.node)
+    ROW = ("call", "mokapot.utils.get_next_row")
     for y in ys:
-        gs = cfg.guards(y)
-        inner = [g for g in gs if g[0] is not w.test]
-        ok_y = isinstance(y.value, ast.Name) and all(
-            ast.unparse(g[0]) == f"{y.value.id} is not None" and g[1]
-            for g in inner)
-        yd = T.of(y.value)
-        ok_y = ok_y and yd[0] == "call" and yd[1] == \
-            "mokapot.utils.get_next_row"
-    ctx.check(ok_y, "C14a-every-row-yielded", f,
+        yd = Tn.of(y.value) if y.value is not None else ("x",)
+        ok_y = yd[:2] == ROW
+        for t_, o in cond_terms(cfg, Tn, y):
+            if t_ == Tn.of(w.test):
+                continue
+            n = t_[0] == "cmp" and t_[1] in ("is", "is not") and \
+                t_[2][:2] == ROW and t_[3] == ("const", None)
+            if not (n and ((t_[1] == "is not") == bool(o))):
+                ok_y = False
+    ctx.check(ok_y and len(ys) == 1, "C14a-every-row-yielded", f,
               "every row handed back by get_next_row is yielded",
               f"yield statements: {[ast.unparse(y) for y in ys]} under "
-              f"guards {[ast.unparse(g[0]) for y in ys for g in cfg.guards(y)]}",
-              node=w)
+              f"{[cfg.conditions(y) for y in ys]}", node=w)
+
+
+def _before_loop(t):
+    """the value a loop-carried container had before the merge loop
+    started (the phi alternative that is not the loop-carried one)"""
+    seen = 0
+    while t[0] in ("phi", "var") and seen < 6:
+        seen += 1
+        if t[0] == "phi":
+            alts = [a for a in t[1] if a[0] != "rec" and not any(
+                isinstance(x, tuple) and x and x[0] == "rec"
+                for x in walk_term(a))]
+            if len(alts) != 1:
+                return t
+            t = alts[0]
+        else:
+            return t
+    return t
 
 
 def _row_iterator(ctx, f):
@@ -443,17 +533,18 @@ def _complete_generator(fnode):
                           ast.While, ast.Try, ast.IfExp))
            for n in ast.walk(fnode)):
         return False
-    body = [s_ for s_ in fnode.body if not (
-        isinstance(s_, ast.Expr) and isinstance(s_.value, ast.Constant))]
+    from ..astutil import live
+    body = live(fnode.body, fnode)
     if len(body) != 1 or not isinstance(body[0], ast.For):
         return False
     outer = body[0]
+    obody = live(outer.body, fnode)
     if not (isinstance(outer.iter, ast.Name) and outer.iter.id == params[0]
             and isinstance(outer.target, ast.Name) and not outer.orelse
-            and len(outer.body) == 1):
+            and len(obody) == 1):
         return False
     chunk = outer.target.id
-    st = outer.body[0]
+    st = obody[0]
 
     def over_chunk(e):
         # the chunk itself, or one call with the chunk as its only argument
@@ -464,9 +555,10 @@ def _complete_generator(fnode):
             e.args[0].id == chunk
     if isinstance(st, ast.Expr) and isinstance(st.value, ast.YieldFrom):
         return over_chunk(st.value.value)
-    if isinstance(st, ast.For) and not st.orelse and len(st.body) == 1 and \
+    if isinstance(st, ast.For) and not st.orelse and len(
+            live(st.body, fnode)) == 1 and \
             isinstance(st.target, ast.Name) and over_chunk(st.iter):
-        y = st.body[0]
+        y = live(st.body, fnode)[0]
         return isinstance(y, ast.Expr) and isinstance(y.value, ast.Yield) \
             and isinstance(y.value.value, ast.Name) and \
             y.value.value.id == st.target.id
